@@ -80,6 +80,8 @@ fn push_frame(c: &mut ConnState, bytes: &[u8], ex: u64, pos: u64, planned: bool)
 const EVENT_BUDGET: usize = 40_000;
 
 pub struct Term {
+    // at most this many bytes per read of the client (0 = everything that is there): replies arrive in segments
+    chunk: usize,
     // reply scripts per command kind (plan.scripts): the next command of that kind is answered by the next script of its queue
     scripts: std::collections::HashMap<String, VecDeque<Value>>,
     call_mark: usize,
@@ -544,7 +546,10 @@ impl AsyncWrite for Conn {
                 }
                 c.hs_stage += 1;
                 hs.get(key).cloned().unwrap_or(json!({}))
-            } else if let Some(sc) = term.scripts.get_mut(name).and_then(|q| q.pop_front()) {
+            } else if let Some(sc) = term.scripts.get_mut(name).and_then(|q| {
+                // a queue whose last script says "repeat" answers every further command of its kind with that script
+                if q.len() == 1 && q[0].get("repeat").and_then(|b| b.as_bool()).unwrap_or(false) { q.front().cloned() } else { q.pop_front() }
+            }) {
                 sc
             } else {
                 term.plan.pop_front().unwrap_or_else(|| term.default_plan.clone())
@@ -603,7 +608,10 @@ impl AsyncRead for Conn {
             c.waker = Some(cx.waker().clone());
             return Poll::Pending;
         }
-        let n = buf.remaining().min(c.rbuf.len());
+        let mut n = buf.remaining().min(c.rbuf.len());
+        if term.chunk > 0 {
+            n = n.min(term.chunk);
+        }
         for _ in 0..n {
             let b = c.rbuf.pop_front().unwrap();
             buf.put_slice(&[b]);
@@ -768,6 +776,7 @@ pub fn run_scenario(sc: &Value) -> Value {
         let start = tokio::time::Instant::now();
         let tcfg = sc.get("term").cloned().unwrap_or(json!({}));
         let term: Shared = Arc::new(Mutex::new(Term {
+            chunk: tcfg.get("chunk").and_then(|c| c.as_u64()).unwrap_or(0) as usize,
             scripts: sc["plan"].get("scripts").and_then(|m| m.as_object()).map(|m| {
                 m.iter().map(|(k, v)| (k.clone(), v.as_array().map(|a| a.iter().cloned().collect()).unwrap_or_default())).collect()
             }).unwrap_or_default(),
